@@ -23,6 +23,7 @@ def analyse(prop: str, tier: str, root: str | None = None) -> Report:
     rep.info["repo_digest"] = repo.digest()
     rep.info["modules_parsed"] = len(repo.modules)
     rep.info["functions_parsed"] = sum(len(m.functions) for m in repo.modules.values())
+    rep.info["normalisation"] = {k: v for k, v in repo.normalisation.items() if any(v.values())}
     mod.run(repo, rep, tier)
     rep.enforce_floors()
     if not rep.items:
